@@ -12,6 +12,18 @@ checks = {
   "Steps a name->value map model together with real WriteAttribute/DeleteAttribute histories (up to 300 ops, crossing compact<->dense storage, size-changing overwrites, reopen sessions, hash-colliding names) and compares the reopened object's attributes (names, datatype, shape, raw bytes, ReadValue) with the model.",
   "A refused write is treated as a capacity limit unless the object is nearly empty; ReadValue compared only for kinds it documents.",
   TECH + ": executable map model stepped with call outcomes, checked after reopen"),
+ "C03": ("exploration",
+  "Steps a tree model with seeded creation sequences (groups, datasets, hard/soft/external links, dense groups; one fifth invalid requests; capacity-filling histories) and decides per request must-succeed / must-fail / capacity edge; after reopen the walked tree is compared graph-wise with the model (kinds, member names per group, every object reachable, no duplicate names, hard links at the same address).",
+  "Documented capacity limits make a refusal legitimate; creation under a parent reached through a link is not judged; subtrees below cyclic links are not judged.",
+  TECH + ": executable tree model stepped with call outcomes, checked after reopen"),
+ "C04": ("exploration",
+  "Every history runs once under a byte-ownership monitor (file snapshot before/after each call, changed bytes attributed through the allocator block list) and once per prefix into a fresh file; the dump after prefix k restricted to objects op_k does not target must equal the dump after prefix k-1. All 2688 orders of the 8-operation core set are enumerated in the thorough tier.",
+  "An operation may change its target, the parent group it links into, the link target and hard-link aliases.",
+  TECH + ": differential prefix runs + byte-diff ownership monitor over real executions"),
+ "C05": ("exploration",
+  "Hands every file produced by seeded write histories to an independent decoder written from the HDF5 specification: strict decode (each deviation = issue key), tolerant decode + extent invariants (inside file, below EOF address, disjoint), and comparison of decoded tree/shapes/types/raw bytes/attribute bytes with what was written.",
+  "The decoder is the stand-in for the specification (validated on the reference corpus against h5dump output); conformance is decided only for structures it visits.",
+  TECH + ": independent spec decoder as observer of the bytes the library writes"),
  "C08": ("exploration",
   "Runs every ordering of the writer's filters over payloads from 0 B to 1 MiB: Apply/Remove identity, pipeline-message encode/parse identity, the reader's decoder on the writer's bytes, single-byte corruption of Fletcher-32 protected chunks on both decoders, plus filtered datasets end to end through the public API.",
   "Fletcher-32 blind spot (0x0000 vs 0xFFFF words) excluded; Apply errors accepted only for shuffle length mismatches.",
